@@ -43,6 +43,9 @@ def cases_for(ctx):
     cases.append({'behaviours': ['equal', 'dict_diff', 'equal', 'dict_diff', 'different'], 'dedicated': False, 'recycle': 2, 'keep': True, 'pair': 'D'})
     cases.append({'behaviours': ['equal', 'different', 'equal', 'equal', 'different', 'equal', 'equal'], 'dedicated': True, 'recycle': 2, 'keep': False, 'slow_start': 0.4})
     cases.append({'behaviours': ['equal', 'unpicklable_answer', 'different', 'unpicklable_answer', 'equal'], 'dedicated': True, 'recycle': 5, 'keep': True})
+    cases.append({'behaviours': ['equal', 'different', 'player_raises', 'equal'], 'dedicated': True, 'recycle': 2, 'keep': True, 'flip_mode': True, 'via_studio': True})
+    cases.append({'behaviours': ['different', 'equal', 'bare_status'], 'dedicated': True, 'recycle': 5, 'keep': False, 'flip_mode': True})
+    cases.append({'behaviours': ['equal', 'different', 'equal', 'equal', 'different'], 'dedicated': True, 'recycle': 2, 'keep': True, 'consume_in_fork': True})
     if ctx.quick:
         return cases
     rng = ctx.rng
